@@ -306,6 +306,17 @@ theorem certificate_sound_slack (B : Mat N N K) (hB : ∀ i j, B i j = B j i) (V
     ∀ x : Fin N → K, (Mat.toM V)ᵀ *ᵥ x = 0 → x ⬝ᵥ (Mat.toM B *ᵥ x) ≤ (Cert.minVec lam + εs) * (x ⬝ᵥ x) :=
   Cert.certTopEig_sound B hB V lam εs hc
 
+/-- **the certificate as it is run on `double` output is sound** (perturbation-proof part): for ANY `V`, any weights `c`
+    and any shift `σ` — no exactness of the eigenpairs, no symmetry — a passing `Cert.extremalDeflated B V c σ` (exact
+    `LDLᵀ` of `σ·1 − B + Σ_j c_j v_j v_jᵀ` closes without a negative pivot) proves that the quadratic form of `B` is at most
+    `σ` on the orthogonal complement of the returned columns: no direction outside their span carries more than
+    `σ = min lam + 2⁻³⁰·scale`.  The drivers run it on every trace up to `N = 16` (thorough: 32); together with the
+    *measured* residual and orthonormality defects this is everything the oracle uses about the eigensolver's output. -/
+theorem certificate_sound_robust (B : Mat N N K) (V : Mat N d K) (c : Vec d K) (σ : K)
+    (h : Cert.extremalDeflated B V c σ = true) :
+    ∀ x : Fin N → K, (Mat.toM V)ᵀ *ᵥ x = 0 → x ⬝ᵥ (Mat.toM B *ᵥ x) ≤ σ * (x ⬝ᵥ x) :=
+  Cert.extremalDeflated_sound B V c σ h
+
 /-! ### Non-vacuity: a concrete non-trivial instance meets the hypotheses of the theorems above
 
 Four points `1, 1, −1, −1` on a line (`δ = 0` inside the two pairs, `2` across), `d = 1`, over `ℚ`:
@@ -320,6 +331,11 @@ def exS : Vec 1 Rat := fun _ => 2
 
 theorem ex_isTopEig : IsTopEig (Mat.toM (mdsPre exδ)) (Mat.toM exV) exLam :=
   certificate_sound (mdsPre exδ) (by decide +kernel) exV exLam (by decide +kernel)
+
+/-- the tolerance-proof certificate passes on the instance with an inexact eigenvector (`0.4999` for `½`) -/
+def exVapprox : Mat 4 1 Rat := fun i _ => if i.1 < 2 then 4999 / 10000 else -(4999 / 10000)
+
+example : Cert.extremalDeflated (mdsPre exδ) exVapprox (fun _ => 9) (1 / 100) = true := by decide +kernel
 
 theorem ex_euclidean : ∀ i j, exδ i j * exδ i j = ∑ a, (exX i a - exX j a) * (exX i a - exX j a) := by
   decide +kernel
